@@ -4,6 +4,7 @@ package main
 
 import (
 	"bufio"
+	"encoding/hex"
 	"fmt"
 	"hash/crc32"
 	"hash/fnv"
@@ -168,6 +169,53 @@ func main() {
 		}
 	}
 
+	// user-supplied Hasher: one balancer value used for a sequence of different keys (hasher state carried by the
+	// object), with the real FNV-1a; and a stub Hasher returning chosen sums (sign boundaries of int32)
+	nseq := 40
+	if thorough {
+		nseq = 600
+	}
+	for i := 0; i < nseq; i++ {
+		n := counts[r.Intn(len(counts)-2)]
+		if i%5 == 0 {
+			n = 3 + r.Intn(5)
+		}
+		parts := iota(n)
+		cnt := 2 + r.Intn(6)
+		ks := make([]string, cnt)
+		hb := &kafka.Hash{Hasher: fnv.New32a()}
+		rb := &kafka.ReferenceHash{Hasher: fnv.New32a()}
+		var hres, rres []int
+		for j := 0; j < cnt; j++ {
+			k := keys[2+r.Intn(len(keys)-2)]
+			if len(k) == 0 {
+				k = []byte{byte(j)}
+			}
+			if j > 0 && r.Intn(3) == 0 {
+				k = append([]byte{}, hexBytes(ks[j-1])...) // same key twice in a row
+			}
+			ks[j] = gen.Hex(k)
+			hres = append(hres, hb.Balance(kafka.Message{Key: k}, parts...))
+			rres = append(rres, rb.Balance(kafka.Message{Key: k}, parts...))
+		}
+		emit(fmt.Sprintf("hashseq %d %s", n, strings.Join(ks, ",")), ints(hres))
+		emit(fmt.Sprintf("refhashseq %d %s", n, strings.Join(ks, ",")), ints(rres))
+	}
+	sums := []uint32{0, 1, 2, 0x7ffffffe, 0x7fffffff, 0x80000000, 0x80000001, 0x80000002, 0xfffffffe, 0xffffffff, 0x811c9dc5, 0xc0000000, 0x40000000}
+	for len(sums) < 60 {
+		sums = append(sums, r.Uint32())
+	}
+	for _, sum := range sums {
+		for _, n := range []int{1, 2, 3, 5, 7, 12, 100, 1 << 16, 1<<20 + 7} {
+			parts := iota(n)
+			st := &stubHasher{sum: sum}
+			emit(fmt.Sprintf("hashsum %d %d", sum, n), observe(1, parts, false, func() int { return (&kafka.Hash{Hasher: st}).Balance(kafka.Message{Key: []byte("k")}, parts...) }))
+			emit(fmt.Sprintf("refhashsum %d %d", sum, n), observe(1, parts, false, func() int {
+				return (&kafka.ReferenceHash{Hasher: st}).Balance(kafka.Message{Key: []byte("k")}, parts...)
+			}))
+		}
+	}
+
 	// RoundRobin: chunk sizes (incl. < 1), partition lists, start counters incl. the uint32 wrap
 	chunks := []int{-3, 0, 1, 2, 3, 5, 12, 64}
 	starts := []uint32{0, 1, 7, 1 << 16, (1 << 32) - 1, (1 << 32) - 2, (1 << 32) - 5, (1 << 32) - 13}
@@ -269,6 +317,24 @@ func main() {
 		m := kafka.Message{Value: make([]byte, sz)}
 		emit(fmt.Sprintf("lbconc %d %d %d", n, g*per, sz), concurrent(g, per, n, func() int { return lb.Balance(m, parts...) }))
 	}
+}
+
+// stubHasher is a hash.Hash32 whose Sum32 is fixed.
+type stubHasher struct{ sum uint32 }
+
+func (s *stubHasher) Write(p []byte) (int, error) { return len(p), nil }
+func (s *stubHasher) Sum(b []byte) []byte         { return b }
+func (s *stubHasher) Reset()                      {}
+func (s *stubHasher) Size() int                   { return 4 }
+func (s *stubHasher) BlockSize() int              { return 1 }
+func (s *stubHasher) Sum32() uint32               { return s.sum }
+
+func hexBytes(s string) []byte {
+	if s == "-" {
+		return []byte{}
+	}
+	b, _ := hex.DecodeString(s)
+	return b
 }
 
 func concurrent(g, per, n int, f func() int) string {
